@@ -275,7 +275,7 @@ func genC08(r *gen.Rand) *C08Case {
 			c.Faults = append(c.Faults, "input:format-features")
 			continue
 		}
-		w.Files = append(w.Files, procsim.File{Path: p, Docs: treeDocs(docs...), EscDollar: r.Chance(0.06)})
+		w.Files = append(w.Files, procsim.File{Path: p, Docs: treeDocs(docs...), EscDollar: r.Chance(0.06), CRLF: ext != "toml" && r.Chance(0.06+0.1*float64(len(docs)-1))})
 		names = append(names, name+"."+ext)
 	}
 	top := names[len(names)-1]
@@ -832,6 +832,7 @@ func jsonTwin(c *C08Case) *C08Case {
 			np := strings.TrimSuffix(f.Path, "."+e) + ".json"
 			renamed[filepath.Base(f.Path)] = filepath.Base(np)
 			f.Path = np
+			f.CRLF = false
 			any = true
 		}
 	}
